@@ -365,6 +365,10 @@ class ActionTextGenWalker(Walker):
         self.accept(one(inst).V_VAL[839]())
         self.buf(']')
         
+    def accept_V_ALV(self, inst):
+        self.accept(one(inst).V_VAL[840]())
+        self.buf('.length')
+        
     def accept_V_LIN(self, inst):
         self.buf(inst.Value)
         
